@@ -202,6 +202,30 @@ def check(run):
         if ok_proof:
             broken.append("extraction/driver build failed: " + logmod[-300:])
             ok_proof = False
+    # get_range beyond the sizes a run can allocate, up to and across the overflow bound: the
+    # extracted model against the formula of the property (Python integers)
+    nrange = 0
+    if os.path.exists(model):
+        glines, want = [], []
+        for _ in range(3000 if thorough else 600):
+            t = run.rng.randrange(1, 17)
+            i = run.rng.randrange(0, t)
+            n = run.rng.choice([run.rng.randrange(0, 1 << 20), run.rng.randrange(0, 1 << 64), (1 << 64) // t + run.rng.randrange(-3, 4), (1 << 60) + run.rng.randrange(-2, 3)])
+            n = max(0, min(n, (1 << 64) - 1))
+            for pr in ("dev", "rel"):
+                glines.append("G %s %d %d %d" % (pr, i, t, n))
+                if (i + 1) * n >= (1 << 64):
+                    want.append("PANIC" if pr == "dev" else "%d-%d" % (((i * n) % (1 << 64)) // t, (((i + 1) * n) % (1 << 64)) // t))
+                else:
+                    want.append("%d-%d" % (i * n // t, (i + 1) * n // t))
+        got = vlib.run_lines(model, glines, shards=4)
+        nrange = len(glines)
+        badg = [(l, g, w) for l, g, w in zip(glines, got, want) if g != w]
+        if badg:
+            l, g, w = badg[0]
+            run.report("correspondence", {"line": l, "stage": "get_range model vs formula"}, {"model": g, "spec": w},
+                       broken="model get_range disagrees with floor(i*n/t)..floor((i+1)*n/t) / the overflow rule on `%s`: %s, expected %s" % (l, g, w), found_input=False)
+    run.cov["get_range_model_points"] = nrange
     profiles = ["dev", "release"] if thorough else ["dev"]
     run.cov["rule"] = ("a case = one call of CompressMulti (spawner, quality, lgwin, flags incl. favor_cpu_efficiency, threads, input recipe, output buffer); "
                        "distinct_nontrivial counts distinct cases with at least 2 threads and at least one input byte per thread")
@@ -268,7 +292,7 @@ def check(run):
                                    broken="correspondence Multi.v vs threading.rs/encode.rs: " + "; ".join(diffs)[:500] + hint, found_input=False)
         if not samples:
             samples = [cases[0].line(False), cases[len(cases) // 3].line(False), cases[len(cases) // 2].line(False), cases[-1].line(False)]
-    run.cov["evaluations"] = total + ntraces
+    run.cov["evaluations"] = total + ntraces + nrange
     run.cov["distinct_nontrivial"] = len(nontriv)
     run.cov["traces_validated_against_impl"] = ntraces
     run.cov["samples"] = samples
